@@ -20,7 +20,8 @@ META = {
              "by the driver and is differential-tested against cespare/xxhash on every run (no theorem depends on it). Injectivity of "
              "locations is modulo collisions of the 64-bit hash (pigeonhole makes the literal statement false for any hash). Routing: all "
              "configured servers are assumed reachable; the real client is exercised over loopback TLS stub servers. Per-object caches: idempotent for a fixed N; a different N on the same "
-             "name object returns the cached island (modelled and compared, not counted as a finding)."),
+             "name object returns the cached island (finding C20-island-cache-stale). N = 0 is excluded from every claim: both packages "
+             "panic with an integer divide by zero (theorem island_zero_panics, confirmed by op `n ... 0 ...`)."),
     "design_ref": "§8 C20",
 }
 
@@ -31,6 +32,8 @@ FINDINGS = {
     "C20-separator-collision": "name parts may contain '/': (\"a/b\",\"c\",\"d\") and (\"a\",\"b/c\",\"d\") have the same canonical path and the same location",
     "C20-routing-unvalidated": "the SDK client accepts any server ranges: an island of 1..allIslands that no range covers has no route "
                                "(GetServiceClient returns nil), an island covered twice silently goes to the later entry",
+    "C20-island-cache-stale": "GetIslandID / GetFolderNumber memoise the first island on the name object and return it for ANY later island "
+                              "count: users/profiles/alice answers 956 for N=1000 and still 956 when asked for N=5",
     "C20-island-off-by-one": "island number is 0-based, out of 1..N, or differs between SDK and server",
     "C20-default-config-panics": "the shipped depth / folders-per-level lets a crafted swamp name panic the path computation",
 }
@@ -56,6 +59,16 @@ def oracle(rep):
                 return ("C20-slice-out-of-range", "GetFullHashPath panicked for depth=%d foldersPerLevel=%s (`%s`)" % (depth, f[6], op))
             if kv.get("again") != "same":
                 return (None, "a second call on the same name object returned something else (`%s`)" % op)
+        elif f[0] == "n2":
+            kv = _kv(line)
+            for side in ("sdk", "srv"):
+                got, fresh = kv.get(side, ",!").split(",")[1].split("!")
+                if got != fresh:
+                    return ("C20-island-cache-stale", "%s: second call on the same name object for N=%s answers %s, a fresh object answers %s (`%s`)"
+                            % (side, f[5], got, fresh, op))
+        elif f[0] == "chain":
+            if not line.endswith("fresh=true"):
+                return (None, "a name built step by step answers differently from a freshly built one (`%s` -> %s)" % (op, line))
         elif f[0] == "routes":
             N = int(f[1])
             rs = [] if f[2] == "-" else [tuple(int(x) for x in r.split("-")) for r in f[2].split(",")]
@@ -70,6 +83,9 @@ def oracle(rep):
                 return ("C20-routing-unvalidated", "client accepted ranges %s for %d islands: island %d is covered by %d entries and routed to %s"
                         % (f[2], N, bad, len(cover[bad]), got.get(str(bad))))
         elif f[0] == "pair":
+            unhex = lambda h: b"" if h == "-" else bytes.fromhex(h)
+            if f[1:4] != f[4:7] and line.endswith(" same") and b"/".join(map(unhex, f[1:4])) != b"/".join(map(unhex, f[4:7])):
+                return (None, "two names with DIFFERENT canonical paths resolve to the same location (`%s` -> %s)" % (op, line))
             if f[1:4] != f[4:7] and line.endswith(" same"):
                 return ("C20-separator-collision", "two different triples resolve to the same location (`%s` -> %s)" % (op, line))
     return None
@@ -90,15 +106,15 @@ def run(ctx):
     K.report_mismatch(ctx, spec_violated)
     c = corrs[0][2] if corrs else K.Corr()
     hits = 0
-    if corrs and not c.mismatch:
+    if corrs:
         # one op per "case" for the oracle: ops are independent
         for i, (op, line) in enumerate(zip(c.ops, c.impl)):
             r = oracle({"ops": [op], "impl": [line]})
             if r:
                 hits += 1
                 fid, text = r
-                if fid and fid in getattr(ctx, "confirmed", {}):
-                    continue
+                if fid and (fid in getattr(ctx, "confirmed", {}) or fid in K.known_ids(ctx.pid)):
+                    continue   # a recorded finding (reported by decide_standard when the model predicts it)
                 ctx.violation("implementation violates the property: " + text,
                               {"correspondence": "C20", "drv_args": corrs[0][1], "ops": [op], "impl": [line],
                                "model": [c.model[i] if i < len(c.model) else "<missing>"]}, tag=fid or "impl")
